@@ -4,6 +4,7 @@
 // and the reopened file is readable.
 use crate::dbdump::*;
 use crate::dbgen::*;
+use crate::dbq::Q;
 use crate::dbrun::{exec_step, refresh_live, show_step, Step};
 use crate::rng::Rng;
 use agdb::*;
@@ -166,6 +167,29 @@ pub fn run_history(rng: &mut Rng, dir: &str, idx: usize, mapped: bool, max_steps
         steps.push(s);
     }
     let target = rng.below(n.saturating_sub(1)) as usize; // never the last: later successful work must exist
+    // every fourth history: the target is replaced by a query of a kind the random choice rarely picks in a state where it has
+    // work to do — an index created over existing values (back-fill), an index removed, aliases re-assigned, values removed
+    if idx % 4 == 3 && target > 0 {
+        // rebuild the twin up to the target to generate against the state the target will see
+        let mut t2 = DbMemory::new("twin2").unwrap();
+        for s in &steps[..target] { let _ = exec_step(&mut t2, s); }
+        let live = refresh_live(&t2);
+        let forced: Option<Q> = match (idx / 4) % 4 {
+            0 => {
+                // a key that some element actually has
+                let keys: Vec<DbValue> = crate::dbdump::observe(&t2).elems.iter().flat_map(|e| e.kvs.iter().map(|kv| kv.key.clone())).collect();
+                if keys.is_empty() { None } else { Some(Q::InsertIndex(rng.pick(&keys).clone())) }
+            }
+            1 => if live.index_keys.is_empty() { None } else { Some(Q::RemoveIndex(rng.pick(&live.index_keys).clone())) },
+            2 => if live.aliases.is_empty() || live.nodes.is_empty() { None } else {
+                Some(Q::InsertAliases(crate::dbq::Qids::Ids(vec![crate::dbq::Qid::Id(*rng.pick(&live.nodes))]), vec![rng.pick(&live.aliases).clone()])) },
+            _ => None,
+        };
+        if let Some(q) = forced {
+            bump(out, &format!("forced-target:{}", q.name()));
+            steps[target] = Step::Exec(q);
+        }
+    }
     let desc = format!("backend={} target_step={} history=[{}]", if mapped { "mapped" } else { "file" }, target,
                        steps.iter().map(show_step).collect::<Vec<_>>().join(" ;; "));
     let path = format!("{}/f{}.agdb", dir, idx);
